@@ -73,3 +73,27 @@ func verifDecomposeCompose(d Decimal, buf []byte) (Decimal, error, bool) {
 	eq := v.Equal(d)
 	return v, err, eq
 }
+
+// verifBinaryRoundTrip is UnmarshalBinary(MarshalBinary(d)).
+func verifBinaryRoundTrip(d Decimal) (Decimal, error, error) {
+	var v Decimal
+	b, err1 := d.MarshalBinary()
+	err2 := v.UnmarshalBinary(b)
+	return v, err1, err2
+}
+
+// verifRoundIdempotent is d.Round(dp, mode) applied twice.
+func verifRoundIdempotent(d Decimal, dp int, mode RoundingMode) (Decimal, Decimal) {
+	r1 := d.Round(dp, mode)
+	r2 := r1.Round(dp, mode)
+	return r1, r2
+}
+
+// verifInt64RoundTrip is FromInt64(x).Int64(); verifUint64RoundTrip likewise.
+func verifInt64RoundTrip(x int64) (int64, bool) {
+	return FromInt64(x).Int64()
+}
+
+func verifUint64RoundTrip(x uint64) (uint64, bool) {
+	return FromUint64(x).Uint64()
+}
